@@ -413,7 +413,7 @@ func ruleTokenWrite(c *chk.Ctx, owner string) {
 			}
 			var del *ssa.Call
 			ir.Instrs(f, func(ins ssa.Instruction) {
-				if call, ok := isDeleteOn(ins, s.table); ok && (ir.NormCell(call.Call.Args[1]) == p.key || c.P.Canon(call.Call.Args[1]) == p.key) && ir.InstrDominates(call, s.send) && (ir.InstrDominates(p.lookup, call) || p.lookup == ssa.Instruction(call)) {
+				if call, ok := isDeleteOn(ins, s.table); ok && (ir.NormCell(call.Call.Args[1]) == p.key || c.P.Canon(call.Call.Args[1]) == p.key || c.P.Canon(call.Call.Args[1]) == c.P.Canon(p.key)) && ir.InstrDominates(call, s.send) && (ir.InstrDominates(p.lookup, call) || p.lookup == ssa.Instruction(call)) {
 					del = call
 				}
 				// the removal through a table type's method
@@ -597,7 +597,7 @@ func ruleTokenKeyed(c *chk.Ctx, owner string) {
 		isKey := func(v ssa.Value) bool {
 			// (the key as any of the ways the presence was established sees it)
 			for _, p := range pres {
-				if v == p.key || c.P.Canon(v) == p.key {
+				if v == p.key || c.P.Canon(v) == p.key || c.P.Canon(v) == c.P.Canon(p.key) {
 					return true
 				}
 			}
@@ -1158,6 +1158,29 @@ func ruleHooks(c *chk.Ctx) {
 									dom = true
 								}
 							}
+							// (the flag is the verdict of a private helper that writes the slot: every
+							// return of the helper that can be true follows its slot write)
+							if call, isCall := st.Val.(*ssa.Call); isCall && !dom {
+								if h := call.Call.StaticCallee(); h != nil && c.P.InRepo[h] && !ir.Exported(h) && h.Signature.Results().Len() == 1 {
+									all, some := true, false
+									for _, r := range ir.Returns(h) {
+										if k, isK := ir.ReturnResult(r, 0).(*ssa.Const); isK && k.Value != nil && k.Value.String() == "false" {
+											continue
+										}
+										some = true
+										after := false
+										for _, ss := range slotSends(c) {
+											if ss.owner == "client" && ss.fn == h && ir.InstrDominates(ss.send, r) {
+												after = true
+											}
+										}
+										if !after {
+											all = false
+										}
+									}
+									dom = all && some
+								}
+							}
 							if !dom {
 								good = false
 							}
@@ -1272,6 +1295,77 @@ func ruleHooks(c *chk.Ctx) {
 							}
 						}
 						if good && nTrue > 0 {
+							okWhere = true
+						}
+					}
+				}
+				if !okWhere && stop != nil && stop.Signature.Results().Len() == 1 {
+					// or: the stop function hands back a record, and the hook is run by a function
+					// given that record, on the outcome of the record's flag that is set only on
+					// the path that actually closed the channel
+					for _, cd := range ir.NormConds(ir.CondsAt(ins.Block())) {
+						prm, fk, isRec := recordParamField(cd.V)
+						ptrForm := false
+						if isRec && !cd.Truth {
+							isRec = false
+						}
+						if x, eq, isNC := ir.NilCompare(cd.V); isNC && eq != cd.Truth {
+							// (the flag may be a pointer that is set only for the stopping call)
+							prm, fk, isRec = recordParamField(ir.NormCell(x))
+							ptrForm = true
+						}
+						if !isRec || !types.Identical(prm.Type(), stop.Signature.Results().At(0).Type()) {
+							continue
+						}
+						idx := -1
+						for i, q := range f.Params {
+							if q == prm {
+								idx = i
+							}
+						}
+						good := idx >= 0 && !ir.Exported(f) && !c.P.UsedAsValue(f)
+						for _, s := range c.P.Callers(f) {
+							args := s.Instr.Common().Args
+							if idx < 0 || idx >= len(args) {
+								good = false
+								continue
+							}
+							if call, isCall := ir.NormCell(args[idx]).(*ssa.Call); !isCall || call.Call.StaticCallee() != stop {
+								good = false
+							}
+						}
+						fvs, known := ir.ResultFieldVals(stop, 0, fk)
+						nTrue := 0
+						for _, fv := range fvs {
+							if fv.Zero {
+								continue
+							}
+							if ptrForm {
+								if ir.IsNilConst(fv.Val) {
+									continue
+								}
+							} else {
+								k, isK := fv.Val.(*ssa.Const)
+								if !isK || k.Value == nil {
+									good = false
+									continue
+								}
+								if k.Value.String() != "true" {
+									continue
+								}
+							}
+							nTrue++
+							dom := false
+							for _, cs := range chanSites(c, "Close") {
+								if cs.owners["client"] && c.P.IDominates(cs.instr, fv.Ret) {
+									dom = true
+								}
+							}
+							if !dom {
+								good = false
+							}
+						}
+						if good && known && nTrue > 0 {
 							okWhere = true
 						}
 					}
@@ -1928,4 +2022,39 @@ func idOfResponse(c *chk.Ctx, k, r ssa.Value, depth int) bool {
 		}
 	}
 	return false
+}
+
+// recordParamField: v reads field k of a struct-typed parameter of its
+// function (a value receiver included, directly or through the local it was
+// spilled into).
+func recordParamField(v ssa.Value) (*ssa.Parameter, int, bool) {
+	var base ssa.Value
+	k := 0
+	switch x := v.(type) {
+	case *ssa.Field:
+		base, k = x.X, x.Field
+	case *ssa.UnOp:
+		fa, ok := x.X.(*ssa.FieldAddr)
+		if !ok || x.Op != token.MUL {
+			return nil, 0, false
+		}
+		base, k = fa.X, fa.Field
+		if al, isAl := base.(*ssa.Alloc); isAl {
+			sts := ir.CellStores(al)
+			if len(sts) != 1 {
+				return nil, 0, false
+			}
+			base = sts[0].Val
+		}
+	default:
+		return nil, 0, false
+	}
+	prm, ok := ir.NormCell(base).(*ssa.Parameter)
+	if !ok {
+		return nil, 0, false
+	}
+	if _, isStruct := prm.Type().Underlying().(*types.Struct); !isStruct {
+		return nil, 0, false
+	}
+	return prm, k, true
 }
